@@ -15,47 +15,57 @@ package app
 
 // The constructor fixes the number of attempts at three.
 //@ func NewSocketAppProxyClient(clientAddr string, timeout time.Duration, logger *logrus.Entry) *SocketAppProxyClient
+//@   safety on
 //@   modifies nothing
 //@   ensures[retries] ret0 != nil && __fresh(ret0) && ret0.retries == 3
 
 //@ func (p *SocketAppProxyClient) CommitBlock(block hashgraph.Block) (proxy.CommitResponse, error)
+//@   safety on
 //@   call call assert[own-reply] __owned(__arg(2))
 //@   requires p != nil && p.retries >= 1
 //@   ensures[error-reported] (ret1 == nil) == (__lastret("call", 0) == nil)
 
 //@ func (p *SocketAppProxyClient) GetSnapshot(blockIndex int) ([]byte, error)
+//@   safety on
 //@   call call assert[own-reply] __owned(__arg(2))
 //@   requires p != nil && p.retries >= 1
 //@   ensures[error-reported] (ret1 == nil) == (__lastret("call", 0) == nil)
 
 //@ func (p *SocketAppProxyClient) Restore(snapshot []byte) error
+//@   safety on
 //@   requires p != nil && p.retries >= 1
 //@   ensures[error-reported] (ret0 == nil) == (__lastret("call", 0) == nil)
 
 //@ func (p *SocketAppProxyClient) OnStateChanged(state state.State) error
+//@   safety on
 //@   requires p != nil && p.retries >= 1
 //@   ensures[error-reported] (ret0 == nil) == (__lastret("call", 0) == nil)
 
 // The AppProxy implementation forwards to the client component unchanged.
 //@ func (p *SocketAppProxy) CommitBlock(block hashgraph.Block) (proxy.CommitResponse, error)
+//@   safety on
 //@   requires p != nil && p.client != nil && p.client.retries >= 1
 //@   call CommitBlock assert[same-block] __eq(__argT[hashgraph.Block](0), block)
 //@   ensures[transparent] __eq(ret0, __lastretT[proxy.CommitResponse]("CommitBlock", 0)) && ret1 == __lastret("CommitBlock", 1)
 
 //@ func (p *SocketAppProxy) GetSnapshot(blockIndex int) ([]byte, error)
+//@   safety on
 //@   requires p != nil && p.client != nil && p.client.retries >= 1
 //@   ensures[transparent] __eq(ret0, __lastretT[[]byte]("GetSnapshot", 0)) && ret1 == __lastret("GetSnapshot", 1)
 
 //@ func (p *SocketAppProxy) Restore(snapshot []byte) error
+//@   safety on
 //@   requires p != nil && p.client != nil && p.client.retries >= 1
 //@   ensures[transparent] ret0 == __lastret("Restore", 0)
 
 //@ func (p *SocketAppProxy) OnStateChanged(state state.State) error
+//@   safety on
 //@   requires p != nil && p.client != nil && p.client.retries >= 1
 //@   ensures[transparent] ret0 == __lastret("OnStateChanged", 0)
 
 // A transaction submitted over the socket is acknowledged only after it was handed to the node's submit channel.
 //@ func (p *SocketAppProxyServer) SubmitTx(tx []byte, ack *bool) error
+//@   safety on
 //@   requires p != nil && ack != nil
 //@   ensures[ack] ret0 == nil && *ack
 //@   ensures[ack-after-handover] *ack ==> __called("chan<-")
